@@ -251,6 +251,8 @@ def handle (op : String) (j : Json) : Except String Json := do
     match Capella.Gen.Pods.podTable[i]? with
     | some r => pure (rowJson r)
     | none => throw s!"no row {i}"
+  | "table.specslots" =>
+    pure (Json.arr (Capella.Gen.Pods.specSlots.map fun r => Json.arr #[Json.str r.1, Json.str r.2.1, Json.str r.2.2]).toArray)
   | "pod.setget" =>
     -- set (or delete when the value is `none`), then get; also a get before
     let o := (j.getObjVal? "oracle").toOption.getD (Json.mkObj [])
